@@ -129,7 +129,8 @@ def tla_header(cfg, mod, ps, top, monitors):
     """Configuration record (line 1 of the trace) for T_Core.tla: everything the requirement specs need, taken from the
     module's *declared datasheet entry* and the PHY/controller settings -- never from the controller's own cycle counts."""
     env.setup()
-    from litedram.common import burst_lengths
+    # burst lengths the LiteDRAM PHYs operate the memories with -- stated here, not imported from the code under test
+    burst_lengths = {"SDR": 1, "DDR": 4, "LPDDR": 4, "DDR2": 4, "DDR3": 8, "DDR4": 8, "LPDDR4": 16, "LPDDR5": 16}
     memtype = mod.memtype
     nph = ps.nphases
     frm = getattr(mod.timing_settings, "fine_refresh_mode", None)
@@ -142,7 +143,9 @@ def tla_header(cfg, mod, ps, top, monitors):
     g = mod.geom_settings
     ctl = top.controller.settings
     dw = top.ports[0].data_width
-    align = top.controller.interface.address_align
+    # burst alignment of port addresses = log2(beats per controller word): a SDR PHY transfers nphases words per controller cycle,
+    # DDR-type PHYs one burst of BL beats.  Derived from the configuration, NOT read back from the implementation.
+    align = int(math.log2(ps.nphases if memtype == "SDR" else burst_lengths[memtype]))
     zq = 0
     if ds["tZQCS"]["ck"] or ds["tZQCS"]["ps"]:
         zq = int(cfg["clk_khz"] * 1e3 / ctl.refresh_zqcs_freq) * nph
